@@ -445,68 +445,20 @@ func c14R6(r *Report) {
 		if !ok || fieldVar(fa) == nil || fieldVar(fa).Name() != "length" || !typeIs(fa.X.Type(), modPath+"/tor", "filechunk") {
 			return
 		}
-		// only the in-loop literal: value is a phi (m) — the single-file literal stores l directly
-		ph, isPhi := st.Val.(*ssa.Phi)
-		if !isPhi {
+		// only the in-loop literals (the single-file literal stores the caller's length directly)
+		inLoop := false
+		for _, l := range naturalLoops(fc) {
+			if l.Blocks[st.Block()] {
+				inLoop = true
+			}
+		}
+		if !inLoop {
 			return
 		}
 		n++
-		// candidates: each edge of the phi
-		okAll := true
-		why := ""
-		for i, e := range ph.Edges {
-			pb := ph.Block().Preds[i]
-			form := linearize(e, same, 0)
-			// a single-atom form that is the loop-carried remaining length l: positive by the loop's own `l <= 0 -> break`
-			proved := false
-			gs := guardsOnEdge(pb, ph.Block())
-			for _, g := range gs {
-				g = g.norm()
-				bo, isb := g.Cond.(*ssa.BinOp)
-				if !isb {
-					continue
-				}
-				op := bo.Op
-				if !g.Pol {
-					switch op {
-					case token.LEQ:
-						op = token.GTR
-					case token.LSS:
-						op = token.GEQ
-					case token.GEQ:
-						op = token.LSS
-					case token.GTR:
-						op = token.LEQ
-					default:
-						continue
-					}
-				}
-				d := linSub(linearize(bo.X, same, 0), linearize(bo.Y, same, 0), same) // X - Y
-				switch op {
-				case token.GTR: // X - Y > 0
-					if linEqual(d, form, same) {
-						proved = true
-					}
-					// X > Y where X is the candidate's bound (m > l): then the other edge is taken; skip
-				case token.LSS: // Y - X > 0
-					neg := linSub(linForm{coef: map[ssa.Value]int64{}}, d, same)
-					if linEqual(neg, form, same) {
-						proved = true
-					}
-				}
-			}
-			if !proved {
-				// loop-carried l: phi whose back edge is under !(l <= 0)
-				if lp, isLp := stripIntConv(e).(*ssa.Phi); isLp {
-					proved = loopCarriedPositive(lp)
-				}
-			}
-			if !proved {
-				okAll = false
-				why = exprStr(e)
-			}
-		}
-		r.Check(okAll, "R6", "fileChunks/chunk-length-positive", st.Pos(), "every chunk emitted for a file has positive length (the skip guard has the same linear form as the chunk length)",
+		pp := &posProver{same: same, seen: map[string]bool{}}
+		ok2, why := pp.positive(st.Val, st.Block(), guardsOf(st.Block()), 0)
+		r.Check(ok2, "R6", "fileChunks/chunk-length-positive", st.Pos(), "every chunk emitted for a file has positive length (implied by the guards that skip files outside the range and by the loop's own exit tests)",
 			"the length of an emitted file chunk ("+why+") is not implied positive by the guard that skips files ending at or before the range start: a file that holds no byte of the range gets an empty chunk (a bogus Range request; the rest of the fetch is dropped)")
 	})
 	r.Sentinel("R6", n, 1)
@@ -595,4 +547,164 @@ func c14R7(r *Report) {
 	}
 	r.Check(len(miss) == 0, "R7", "webseedGR/next-file-only-after-full-file", get.Pos(), "the next file is fetched only after the previous one delivered exactly its length without error",
 		fmt.Sprintf("a path from a file's fetch back to the loop does not pass: %v — after a short (but cleanly terminated) body the next file's bytes are appended right after the partial data, at the wrong offsets", miss))
+}
+
+// posProver shows v > 0 from the shape of the code: intervals, min() of positives, phis edge by edge, a linear form
+// that some guard on the way states positive (f.Offset+f.Length <= o skipped  =>  f.Offset+f.Length-o > 0), and — for
+// a form that contains a loop-carried variable — induction over the loop: the form is positive on the entry edge and
+// on every back edge (where the loop's own exit test `o >= end -> return` has just failed). A bare parameter on the
+// entry edge (the caller's hole size) is taken as positive: that is the function's contract, checked at its callers
+// by C14.R2.
+type posProver struct {
+	same func(a, b ssa.Value) bool
+	seen map[string]bool
+}
+
+func (pp *posProver) byGuards(form linForm, gs []Guard) bool {
+	same := pp.same
+	for _, g := range gs {
+		op, x, y, ok := cmpFact(g)
+		if !ok {
+			continue
+		}
+		d := linSub(linearize(x, same, 0), linearize(y, same, 0), same) // X - Y
+		switch op {
+		case token.GTR: // X - Y > 0
+			if linEqual(d, form, same) {
+				return true
+			}
+		case token.LSS: // Y - X > 0
+			neg := linSub(linForm{coef: map[ssa.Value]int64{}}, d, same)
+			if linEqual(neg, form, same) {
+				return true
+			}
+		case token.GEQ: // X - Y >= 0: form == X - Y + c with c >= 1
+			diff := linSub(form, d, same)
+			if len(diff.coef) == 0 && diff.c >= 1 {
+				return true
+			}
+		case token.LEQ:
+			neg := linSub(linForm{coef: map[ssa.Value]int64{}}, d, same)
+			diff := linSub(form, neg, same)
+			if len(diff.coef) == 0 && diff.c >= 1 {
+				return true
+			}
+		}
+	}
+	return false
+}
+
+func (pp *posProver) positive(v ssa.Value, b *ssa.BasicBlock, gs []Guard, depth int) (bool, string) {
+	if depth > 6 {
+		return false, exprStr(v)
+	}
+	v = stripIntConv(v)
+	env := &IntEnv{SameVal: pp.same}
+	if b != nil && env.At(v, b).Lo >= 1 {
+		return true, ""
+	}
+	switch x := v.(type) {
+	case *ssa.Call:
+		if bi, ok := x.Call.Value.(*ssa.Builtin); ok && bi.Name() == "min" {
+			for _, a := range x.Call.Args {
+				if ok, why := pp.positive(a, b, gs, depth+1); !ok {
+					return false, why
+				}
+			}
+			return true, ""
+		}
+	case *ssa.Phi:
+		// a merge inside the loop body (m = phi(clipped, whole)): edge by edge
+		isHead := false
+		for _, pb := range x.Block().Preds {
+			if x.Block().Dominates(pb) {
+				isHead = true
+			}
+		}
+		if !isHead {
+			for i, e := range x.Edges {
+				pb := x.Block().Preds[i]
+				if ok, why := pp.positive(e, pb, guardsOnEdge(pb, x.Block()), depth+1); !ok {
+					return false, why
+				}
+			}
+			return true, ""
+		}
+	}
+	form := linearize(v, pp.same, 0)
+	if pp.byGuards(form, gs) {
+		return true, ""
+	}
+	// induction over a loop-carried atom of the form
+	for atom, coef := range form.coef {
+		ph, ok := atom.(*ssa.Phi)
+		if !ok || (coef != 1 && coef != -1) {
+			continue
+		}
+		isHead := false
+		for _, pb := range ph.Block().Preds {
+			if ph.Block().Dominates(pb) {
+				isHead = true
+			}
+		}
+		if !isHead {
+			continue
+		}
+		key := fmt.Sprintf("%p/%v", ph, form.c)
+		if pp.seen[key] {
+			continue
+		}
+		pp.seen[key] = true
+		all := true
+		for i, e := range ph.Edges {
+			pb := ph.Block().Preds[i]
+			if e == ssa.Value(ph) {
+				continue // unchanged on this edge (continue)
+			}
+			// the form with the atom replaced by this edge's value
+			sub := linForm{coef: map[ssa.Value]int64{}, c: form.c}
+			for k, c := range form.coef {
+				if k != atom {
+					sub.coef[k] += c
+				}
+			}
+			le := linearize(e, pp.same, 0)
+			for k, c := range le.coef {
+				sub.coef[k] += coef * c
+			}
+			sub.c += coef * le.c
+			for k, c := range sub.coef {
+				if c == 0 {
+					delete(sub.coef, k)
+				}
+			}
+			entry := !ph.Block().Dominates(pb)
+			if entry && len(sub.coef) == 1 && sub.c == 0 {
+				bare := false
+				for k, c := range sub.coef {
+					if _, isP := k.(*ssa.Parameter); isP && c == 1 {
+						bare = true
+					}
+				}
+				if bare {
+					continue
+				}
+			}
+			if len(sub.coef) == 0 && sub.c >= 1 {
+				continue
+			}
+			if pp.byGuards(sub, guardsOnEdge(pb, ph.Block())) {
+				continue
+			}
+			all = false
+		}
+		if all {
+			return true, ""
+		}
+	}
+	// the loop-carried remaining length itself (l = phi(l0, l - m)) under the loop's `l <= 0 -> break`
+	if lp, isLp := v.(*ssa.Phi); isLp && loopCarriedPositive(lp) {
+		return true, ""
+	}
+	return false, exprStr(v)
 }
